@@ -245,10 +245,11 @@ def run_check(prop: Prop, tier, seed, replay=None):
             reason = prop.spec_verdict(c, impl[i], s)
             if not reason and c.group is not None and getattr(prop, "generic_groups", False):
                 # metamorphic oracle: all cases of one group must answer alike
-                first = groups.setdefault(c.group, (c, prop.observable(impl[i])))
-                if first[1] != prop.observable(impl[i]):
+                gobs = getattr(prop, "group_observable", prop.observable)
+                first = groups.setdefault(c.group, (c, gobs(impl[i])))
+                if first[1] != gobs(impl[i]):
                     reason = (f"two spellings of one expression answer differently: {first[0].text!r} -> {first[1][:90]}, "
-                              f"{c.text!r} -> {prop.observable(impl[i])[:90]}")
+                              f"{c.text!r} -> {gobs(impl[i])[:90]}")
             if reason:
                 spec_fail.append((i, c, impl[i], m, s, reason))
             if c.line not in seen:
